@@ -25,16 +25,431 @@ structure Closed (cfg : NCfg) (sub : NSub) (sc : Script) (R : View → View → 
     (nchangeState sub sc cfg scope x dest { s with glog := s.glog ++ [.exec tr] }).state? = some s' →
     R s.view s'.view
 
+/-! ### scopes -/
+
+theorem Scope.enter_pre {sc sc' : Scope} {k : Nat} (h : sc.enter k = some sc') : sc'.pre = sc.pre ++ [k] := by
+  unfold Scope.enter at h
+  split at h
+  · cases h; rfl
+  · cases h
+
+theorem Scope.walkTo_snoc : ∀ (p : SPath) (sc sc1 sc2 : Scope) (k : Nat),
+    sc.walkTo p = some sc1 → sc1.enter k = some sc2 → sc.walkTo (p ++ [k]) = some sc2
+  | [], sc, sc1, sc2, k, h1, h2 => by
+    simp only [Scope.walkTo, Option.some.injEq] at h1
+    subst h1
+    simp [Scope.walkTo, h2]
+  | a :: p, sc, sc1, sc2, k, h1, h2 => by
+    simp only [Scope.walkTo, List.cons_append] at h1 ⊢
+    cases he : sc.enter a with
+    | none => simp [he] at h1
+    | some sc' =>
+      simp only [he] at h1 ⊢
+      exact Scope.walkTo_snoc p sc' sc1 sc2 k h1 h2
+
+/-- the reachability invariant of the scope recursion is kept by `with self(key)` -/
+theorem Scope.walkTo_enter {root sc sc' : Scope} {k : Nat} (hw : root.walkTo sc.pre = some sc)
+    (he : sc.enter k = some sc') : root.walkTo sc'.pre = some sc' := by
+  rw [Scope.enter_pre he]
+  exact Scope.walkTo_snoc _ _ _ _ _ hw he
+
+theorem NCfg.walkTo_root (cfg : NCfg) : cfg.root.walkTo cfg.root.pre = some cfg.root := rfl
+
+/-! ### callbacks do not touch the view -/
+
+section View
+variable (sub : NSub) (sc : Script) (cfg : NCfg)
+
+theorem ninvoke_view (hC : NoCmds sc) (slot : Slot) (x : Ctx) (c : Nat) (s s' : NSt)
+    (h : (ninvoke sub sc cfg slot x c s).state? = some s') : s'.view = s.view := by
+  simp only [ninvoke, hC c, nrunCmds] at h
+  cases ho : (sc c (s.count c)).out <;> simp only [ho, Res.state?, Option.some.injEq] at h <;> subst h <;> rfl
+
+theorem ncallbacks_view (hC : NoCmds sc) (slot : Slot) (x : Ctx) : ∀ (cbs : List Nat) (s s' : NSt),
+    (ncallbacks sub sc cfg slot x cbs s).state? = some s' → s'.view = s.view
+  | [], s, s', h => by simp only [ncallbacks, Res.state?, Option.some.injEq] at h; subst h; rfl
+  | c :: cs, s, s', h => by
+    unfold ncallbacks at h
+    cases hi : ninvoke sub sc cfg slot x c s with
+    | ok b s1 =>
+      simp only [hi, Res.bind] at h
+      rw [ncallbacks_view hC slot x cs s1 s' h]
+      exact ninvoke_view sub sc cfg hC slot x c s s1 (by simp [hi, Res.state?])
+    | err e s1 =>
+      simp only [hi, Res.bind, Res.state?, Option.some.injEq] at h; subst h
+      exact ninvoke_view sub sc cfg hC slot x c s s1 (by simp [hi, Res.state?])
+    | oof => simp [hi, Res.bind, Res.state?] at h
+
+theorem nevalConds_view (hC : NoCmds sc) (x : Ctx) : ∀ (cs : List Cond) (s s' : NSt),
+    (nevalConds sub sc cfg x cs s).state? = some s' → s'.view = s.view
+  | [], s, s', h => by simp only [nevalConds, Res.state?, Option.some.injEq] at h; subst h; rfl
+  | c :: cs, s, s', h => by
+    unfold nevalConds at h
+    cases hi : ninvoke sub sc cfg (if c.target then .condition else .unless) x c.cb s with
+    | ok b s1 =>
+      have h1 := ninvoke_view sub sc cfg hC _ x c.cb s s1 (by rw [hi]; rfl)
+      simp only [hi, Res.bind] at h
+      split at h
+      · rw [nevalConds_view hC x cs s1 s' h, h1]
+      · simp only [Res.state?, Option.some.injEq] at h; subst h; exact h1
+    | err e s1 =>
+      simp only [hi, Res.bind, Res.state?, Option.some.injEq] at h; subst h
+      exact ninvoke_view sub sc cfg hC _ x c.cb s s1 (by rw [hi]; rfl)
+    | oof => simp [hi, Res.bind, Res.state?] at h
+
+end View
+
+
+/-! ### the frame -/
+
+/-- every completed run of `r` (normal or exceptional) ends in a state whose view is `R`-related to `v` -/
+def PresV {α} (R : View → View → Prop) (r : NR α) (v : View) : Prop := ∀ s', r.state? = some s' → R v s'.view
+
+section Frame
+variable {cfg : NCfg} {sub : NSub} {sc : Script} {R : View → View → Prop}
+
+theorem PresV.ok {α} {v : View} {a : α} {s : NSt} (h : R v s.view) : PresV R (.ok a s : NR α) v := by
+  intro s' hs; simp only [Res.state?, Option.some.injEq] at hs; subst hs; exact h
+theorem PresV.err {α} {v : View} {e : Exc} {s : NSt} (h : R v s.view) : PresV R (.err e s : NR α) v := by
+  intro s' hs; simp only [Res.state?, Option.some.injEq] at hs; subst hs; exact h
+theorem PresV.oof {α} {v : View} : PresV R (.oof : NR α) v := by
+  intro s' hs; simp [Res.state?] at hs
+
+theorem PresV.weaken {α} (hcl : Closed cfg sub sc R) {r : NR α} {v w : View} (f : R v w) (h : PresV R r w) :
+    PresV R r v := fun s' hs => hcl.trans f (h s' hs)
+
+theorem PresV.bind {α β} {r : NR α} {f : α → NSt → NR β} {v : View}
+    (h1 : PresV R r v) (h2 : ∀ a s1, r = .ok a s1 → R v s1.view → PresV R (f a s1) v) :
+    PresV R (r.bind f) v := by
+  intro s' h
+  cases r with
+  | ok a s1 => exact h2 a s1 rfl (h1 s1 rfl) s' h
+  | err e s1 => simp only [Res.bind, Res.state?, Option.some.injEq] at h; subst h; exact h1 s1 rfl
+  | oof => simp [Res.bind, Res.state?] at h
+
+theorem PresV.map {α β} {r : NR α} {f : α → β} {v : View} (h1 : PresV R r v) : PresV R (r.map f) v := by
+  intro s' h
+  cases r with
+  | ok a s1 => exact h1 s' h
+  | err e s1 => exact h1 s' h
+  | oof => simp [Res.map, Res.state?] at h
+
+theorem ncallbacks_pres (hC : NoCmds sc) (hcl : Closed cfg sub sc R) (slot : Slot) (x : Ctx) (cbs : List Nat)
+    (s : NSt) : PresV R (ncallbacks sub sc cfg slot x cbs s) s.view := by
+  intro s' h; rw [ncallbacks_view sub sc cfg hC slot x cbs s s' h]; exact hcl.refl _
+
+theorem nevalConds_pres (hC : NoCmds sc) (hcl : Closed cfg sub sc R) (x : Ctx) (cs : List Cond)
+    (s : NSt) : PresV R (nevalConds sub sc cfg x cs s) s.view := by
+  intro s' h; rw [nevalConds_view sub sc cfg hC x cs s s' h]; exact hcl.refl _
+
+/-- a mark other than `fin` -/
+theorem Closed.markG (hcl : Closed cfg sub sc R) (s : NSt) (e : GEv) (hm : e.isMark = true)
+    (hf : ∀ t m, e = .fin t m → m = confMask cfg s.conf) : R s.view (s.emitG e).view :=
+  hcl.mark s.view e hm hf
+
+/-- the `exec` mark, the `before` callbacks and the state change (if any), from the state before the mark -/
+theorem execStep_pres (hcl : Closed cfg sub sc R) (scope : Scope) (x : Ctx) (tr : TRef)
+    (dest : Option SPath) (s4 : NSt) (l : List GEv) (hw : cfg.root.walkTo scope.pre = some scope) :
+    s4.glog = l ++ [.exec tr] →
+    PresV R (match dest with
+      | some d => nchangeState sub sc cfg scope x d s4
+      | none => (.ok () s4 : NR Unit)) ⟨s4.conf, l⟩ := by
+  intro hg
+  cases dest with
+  | none =>
+    refine PresV.ok ?_
+    have := hcl.mark ⟨s4.conf, l⟩ (.exec tr) rfl (by intro t m h; cases h)
+    simpa [NSt.view, hg] using this
+  | some d =>
+    intro s' h
+    have hs : ({ ({ s4 with glog := l } : NSt) with glog := ({ s4 with glog := l } : NSt).glog ++ [.exec tr] } : NSt) = s4 := by
+      cases s4; simp only at hg; subst hg; rfl
+    have := hcl.execChange scope x d tr { s4 with glog := l } s' hw (by rw [hs]; exact h)
+    exact this
+
+
+theorem nexecute_pres (hC : NoCmds sc) (hcl : Closed cfg sub sc R) (scope : Scope) (x : Ctx) (tr : TRef) (t : NTrans)
+    (s : NSt) (hw : cfg.root.walkTo scope.pre = some scope) :
+    PresV R (nexecute sub sc cfg scope x tr t s) s.view := by
+  unfold nexecute
+  have hcand : R s.view (s.emitG (.cand tr)).view := hcl.markG s _ rfl (by intro t m h; cases h)
+  refine PresV.bind (PresV.weaken hcl hcand (ncallbacks_pres hC hcl _ x _ _)) ?_
+  intro _ s1 _ f1
+  refine PresV.weaken hcl f1 (PresV.bind (nevalConds_pres hC hcl x _ s1) ?_)
+  intro ok s2 _ f2
+  refine PresV.weaken hcl f2 ?_
+  cases ok with
+  | false => exact PresV.ok (hcl.refl _)
+  | true =>
+    simp only [Bool.not_true, Bool.false_eq_true, if_false]
+    refine PresV.bind (ncallbacks_pres hC hcl _ x _ s2) ?_
+    intro _ s3 _ f3
+    refine PresV.weaken hcl f3 ?_
+    -- from `s3`: the `exec` mark and the `before` callbacks (which fail or not) ...
+    have hexec : R s3.view (s3.emitG (.exec tr)).view := hcl.markG s3 _ rfl (by intro t m h; cases h)
+    refine PresV.bind (PresV.weaken hcl hexec (ncallbacks_pres hC hcl _ x _ _)) ?_
+    intro _ s4 h4 _
+    have hv : s4.view = (s3.emitG (.exec tr)).view :=
+      ncallbacks_view sub sc cfg hC _ x _ _ s4 (by rw [h4]; rfl)
+    have hconf : s4.conf = s3.conf := congrArg View.conf hv
+    have hg : s4.glog = s3.glog ++ [.exec tr] := congrArg View.glog hv
+    -- ... then the state change
+    have hstep := execStep_pres hcl scope x tr t.dest s4 s3.glog hw hg
+    rw [hconf] at hstep
+    refine PresV.bind hstep ?_
+    intro _ s5 _ f5
+    refine PresV.weaken hcl f5 (PresV.bind (ncallbacks_pres hC hcl _ x _ s5) ?_)
+    intro _ s6 _ f6
+    refine PresV.weaken hcl f6 (PresV.bind (ncallbacks_pres hC hcl _ x _ s6) ?_)
+    intro _ s7 _ f7
+    exact PresV.ok f7
+
+theorem ntry_pres (hC : NoCmds sc) (hcl : Closed cfg sub sc R) (scope : Scope) (x : Ctx)
+    (hw : cfg.root.walkTo scope.pre = some scope) : ∀ (cands : List (TRef × NTrans)) (s : NSt),
+    PresV R (ntry sub sc cfg scope x cands s) s.view
+  | [], s => PresV.ok (hcl.refl _)
+  | (tr, t) :: r, s => by
+    unfold ntry
+    refine PresV.bind (nexecute_pres hC hcl scope x tr t s hw) ?_
+    intro b s1 _ f1
+    cases b with
+    | true => exact PresV.ok f1
+    | false =>
+      exact PresV.weaken hcl (v := s.view) (w := ({ s1 with result := some false } : NSt).view) f1
+        (ntry_pres hC hcl scope x hw r _)
+
+theorem nprocess_pres (hC : NoCmds sc) (hcl : Closed cfg sub sc R) (scope : Scope) (x : Ctx)
+    (hw : cfg.root.walkTo scope.pre = some scope) (cands : List (TRef × NTrans)) (s : NSt) :
+    PresV R (nprocess sub sc cfg scope x cands s) s.view := by
+  unfold nprocess
+  refine PresV.bind (ncallbacks_pres hC hcl _ x _ s) ?_
+  intro _ s1 _ f1
+  exact PresV.weaken hcl f1 (ntry_pres hC hcl scope x hw cands s1)
+
+theorem tnLoop_pres (hC : NoCmds sc) (hcl : Closed cfg sub sc R) (scope : Scope) (x : Ctx) (ev : Nat)
+    (ts : List NTrans) (hw : cfg.root.walkTo scope.pre = some scope) : ∀ (ps done : List SPath) (s : NSt),
+    PresV R (tnLoop sub sc cfg scope x ev ts ps done s) s.view
+  | [], _, s => PresV.ok (hcl.refl _)
+  | p :: ps, done, s => by
+    unfold tnLoop
+    simp only []
+    split
+    · exact tnLoop_pres hC hcl scope x ev ts hw ps done s
+    · split
+      · exact PresV.err (hcl.refl _)
+      · refine PresV.bind (nprocess_pres hC hcl scope x hw _ s) ?_
+        intro _ s1 _ f1
+        exact PresV.weaken hcl f1 (tnLoop_pres hC hcl scope x ev ts hw ps _ s1)
+
+theorem triggerNested_pres (hC : NoCmds sc) (hcl : Closed cfg sub sc R) (scope : Scope) (x : Ctx) (ev : Nat)
+    (ts : List NTrans) (hw : cfg.root.walkTo scope.pre = some scope) (s : NSt) :
+    PresV R (triggerNested sub sc cfg scope x ev ts s) s.view := by
+  unfold triggerNested
+  split
+  · exact PresV.err (hcl.refl _)
+  · exact PresV.err (hcl.refl _)
+  · split
+    · exact PresV.oof
+    · refine PresV.bind (tnLoop_pres hC hcl scope x ev ts hw _ _ s) ?_
+      intro _ s1 _ f1
+      exact PresV.ok f1
+
+theorem ten_pres (hC : NoCmds sc) (hcl : Closed cfg sub sc R) (x : Ctx) (ev : Nat) :
+    ∀ (tree : Forest) (scope : Scope) (res : List (Nat × Bool)) (s : NSt),
+    cfg.root.walkTo scope.pre = some scope → PresV R (ten sub sc cfg x ev scope tree res s) s.view := by
+  intro tree
+  induction tree with
+  | nil => intro scope res s _; unfold ten; exact PresV.ok (hcl.refl _)
+  | cons key value rest ihv ihr =>
+    intro scope res s hw
+    unfold ten
+    refine PresV.bind ?_ ?_
+    · split
+      · exact PresV.ok (hcl.refl _)
+      · split
+        · exact PresV.err (hcl.refl _)
+        · rename_i inner he
+          refine PresV.bind (ihv inner [] s (Scope.walkTo_enter hw he)) ?_
+          intro _ s1 _ f1
+          exact PresV.ok f1
+    · intro res1 s1 _ f1
+      refine PresV.weaken hcl f1 (PresV.bind ?_ ?_)
+      · split
+        · split
+          · refine PresV.bind (triggerNested_pres hC hcl scope x ev _ hw s1) ?_
+            intro _ s2 _ f2
+            exact PresV.ok f2
+          · exact PresV.ok (hcl.refl _)
+        · exact PresV.ok (hcl.refl _)
+      · intro res2 s2 _ f2
+        exact PresV.weaken hcl f2 (ihr scope res2 s2 hw)
+
+theorem checkEventResult_pres (hcl : Closed cfg sub sc R) (res : Option Bool) (ev : Nat) (s : NSt) :
+    PresV R (checkEventResult cfg res ev s) s.view := by
+  unfold checkEventResult
+  split
+  · exact PresV.ok (hcl.refl _)
+  · split
+    · exact PresV.ok (hcl.refl _)
+    · exact PresV.err (hcl.refl _)
+    · exact PresV.oof
+
+theorem triggerEventBody_pres (hC : NoCmds sc) (hcl : Closed cfg sub sc R) (x : Ctx) (ev : Nat) (s : NSt) :
+    PresV R (triggerEventBody sub sc cfg x ev s) s.view := by
+  unfold triggerEventBody
+  refine PresV.bind (ten_pres hC hcl x ev s.conf cfg.root [] s (NCfg.walkTo_root cfg)) ?_
+  intro r s1 _ f1
+  refine PresV.weaken hcl f1 (PresV.bind (checkEventResult_pres hcl _ ev s1) ?_)
+  intro b s2 _ f2
+  exact PresV.ok (s := { s2 with result := some b }) f2
+
+theorem nfinalize_pres (hC : NoCmds sc) (hcl : Closed cfg sub sc R) (x : Ctx) (s s' : NSt)
+    (h : nfinalize sub sc cfg x s = some s') : R s.view s'.view := by
+  unfold nfinalize at h
+  have hfin : R s.view (s.emitG (.fin x.tag (confMask cfg s.conf))).view :=
+    hcl.markG s _ rfl (by intro t m h; cases h; rfl)
+  have hp := PresV.weaken hcl hfin (ncallbacks_pres hC hcl .finalize x cfg.finalize _)
+  split at h
+  · rename_i u s1 hc; cases h; exact hp _ (by rw [hc]; rfl)
+  · rename_i e s1 hc; cases h; exact hp _ (by rw [hc]; rfl)
+  · cases h
+
+/-- the `except BaseException` clause of `_trigger_event` -/
+theorem exceptClause_pres (hC : NoCmds sc) (hcl : Closed cfg sub sc R) (x : Ctx) (body : NR Bool) (v : View)
+    (hbody : PresV R body v) :
+    PresV R (match body with
+      | .ok b s' => (.ok b s' : NR Bool)
+      | .err e s' =>
+        match cfg.onException with
+        | [] => .err e s'
+        | hs => (ncallbacks sub sc cfg .onException x hs s').bind fun _ s'' => .ok (s''.result.getD false) s''
+      | .oof => .oof) v := by
+  cases body with
+  | ok b s1 => exact hbody
+  | oof => exact PresV.oof
+  | err e s1 =>
+    have f1 : R v s1.view := hbody s1 rfl
+    simp only []
+    split
+    · exact PresV.err f1
+    · refine PresV.weaken hcl f1 (PresV.bind (ncallbacks_pres hC hcl _ x _ s1) ?_)
+      intro _ s2 _ f2
+      exact PresV.ok f2
+
+/-- the `finally` clause of `_trigger_event` -/
+theorem finallyClause_pres (hC : NoCmds sc) (hcl : Closed cfg sub sc R) (x : Ctx) (r1 : NR Bool) (v : View)
+    (hr1 : PresV R r1 v) :
+    PresV R (match r1 with
+      | .ok b s' => match nfinalize sub sc cfg x s' with
+        | some s'' => (.ok b s'' : NR Bool)
+        | none => .oof
+      | .err e s' => match nfinalize sub sc cfg x s' with
+        | some s'' => .err e s''
+        | none => .oof
+      | .oof => .oof) v := by
+  cases r1 with
+  | oof => exact PresV.oof
+  | ok b s1 =>
+    simp only []
+    cases hf : nfinalize sub sc cfg x s1 with
+    | none => exact PresV.oof
+    | some s2 => exact PresV.ok (hcl.trans (hr1 s1 rfl) (nfinalize_pres hC hcl x s1 s2 hf))
+  | err e s1 =>
+    simp only []
+    cases hf : nfinalize sub sc cfg x s1 with
+    | none => exact PresV.oof
+    | some s2 => exact PresV.err (hcl.trans (hr1 s1 rfl) (nfinalize_pres hC hcl x s1 s2 hf))
+
+theorem ntriggerEvent_pres (hC : NoCmds sc) (hcl : Closed cfg sub sc R) (x : Ctx) (ev : Nat) (s : NSt) :
+    PresV R (ntriggerEvent sub sc cfg x ev s) s.view := by
+  have hbody : PresV R (triggerEventBody sub sc cfg x ev { s with result := none }) s.view :=
+    triggerEventBody_pres hC hcl x ev { s with result := none }
+  unfold ntriggerEvent
+  exact finallyClause_pres hC hcl x _ _ (exceptClause_pres hC hcl x _ _ hbody)
+
+theorem ndrain_pres (hC : NoCmds sc) (hcl : Closed cfg sub sc R) : ∀ (n : Nat) (s : NSt),
+    PresV R (ndrain sub sc cfg n s) s.view
+  | 0, _ => PresV.oof
+  | n + 1, s => by
+    unfold ndrain
+    split
+    · exact PresV.ok (hcl.refl _)
+    · rename_i ev tag _ _
+      have ht := ntriggerEvent_pres hC hcl ⟨0, tag⟩ ev s
+      split
+      · rename_i b s1 hc
+        have f1 : R s.view s1.view := ht s1 (by rw [hc]; rfl)
+        exact PresV.weaken hcl (w := ({ s1 with queue := s1.queue.drop 1 } : NSt).view) f1 (ndrain_pres hC hcl n _)
+      · rename_i e s1 hc
+        have f1 : R s.view s1.view := ht s1 (by rw [hc]; rfl)
+        exact PresV.err (s := { s1 with queue := [] }) f1
+      · exact PresV.oof
+
+theorem nmachineProcess_pres (hC : NoCmds sc) (hcl : Closed cfg sub sc R) (qmax ev tag : Nat) (s : NSt) :
+    PresV R (nmachineProcess sub sc cfg qmax ev tag s) s.view := by
+  unfold nmachineProcess
+  split
+  · split
+    · exact ntriggerEvent_pres hC hcl _ ev s
+    · exact PresV.err (hcl.refl _)
+  · simp only []
+    split
+    · exact PresV.ok (s := { s with queue := s.queue ++ [(ev, tag)] }) (hcl.refl _)
+    · refine PresV.bind (v := s.view) (ndrain_pres hC hcl qmax { s with queue := s.queue ++ [(ev, tag)] }) ?_
+      intro _ s1 _ f1
+      exact PresV.ok f1
+
+theorem napiTrigger_pres (hC : NoCmds sc) (hcl : Closed cfg sub sc R) (qmax ev : Nat) (s : NSt) :
+    PresV R (napiTrigger sub sc cfg qmax ev s) s.view := by
+  unfold napiTrigger
+  simp only []
+  have hapi : R s.view ((({ s with nextTag := s.nextTag + 1 } : NSt).emit (.api 0 s.nextTag 0 ev)).emitG
+      (.api s.nextTag ev)).view :=
+    hcl.mark s.view (.api s.nextTag ev) rfl (by intro t m h; cases h)
+  have hp := PresV.weaken hcl hapi (nmachineProcess_pres hC hcl qmax ev s.nextTag
+    ((({ s with nextTag := s.nextTag + 1 } : NSt).emit (.api 0 s.nextTag 0 ev)).emitG (.api s.nextTag ev)))
+  split
+  · rename_i b s1 hc
+    have f1 : R s.view s1.view := hp s1 (by rw [hc]; rfl)
+    refine PresV.ok (hcl.trans f1 ?_)
+    exact hcl.mark s1.view (.ret s.nextTag b) rfl (by intro t m h; cases h)
+  · rename_i e s1 hc
+    have f1 : R s.view s1.view := hp s1 (by rw [hc]; rfl)
+    refine PresV.err (hcl.trans f1 ?_)
+    exact hcl.mark s1.view (.raised s.nextTag e) rfl (by intro t m h; cases h)
+  · exact PresV.oof
+
+end Frame
+
 variable (cfg : NCfg) (sub : NSub) (sc : Script) (R : View → View → Prop)
 
 /-- one trigger call (direct or through the queue) -/
 theorem frame_apiTrigger (hC : NoCmds sc) (hcl : Closed cfg sub sc R) (qmax ev : Nat) (s s' : NSt)
-    (h : (napiTrigger sub sc cfg qmax ev s).state? = some s') : R s.view s'.view := by
-  sorry
+    (h : (napiTrigger sub sc cfg qmax ev s).state? = some s') : R s.view s'.view :=
+  napiTrigger_pres hC hcl qmax ev s s' h
 
 /-- a whole history of trigger calls -/
 theorem frame_history (hC : NoCmds sc) (hcl : ∀ sub, Closed cfg sub sc R) (qmax fuel : Nat) :
     ∀ (evs : List Nat) (s s' : NSt), nrunHistory sc cfg qmax fuel evs s = some s' → R s.view s'.view := by
-  sorry
+  have hcmd : ∀ (ev : Nat) (s : NSt), PresV R (nrunCmd sc cfg qmax fuel (.trigger 0 ev) s) s.view := by
+    intro ev s
+    cases fuel with
+    | zero => exact PresV.oof
+    | succ f =>
+      unfold nrunCmd
+      exact PresV.map (napiTrigger_pres hC (hcl _) qmax ev s)
+  intro evs
+  induction evs with
+  | nil => intro s s' h; simp only [nrunHistory, Option.some.injEq] at h; subst h; exact (hcl (fun _ s => .oof)).refl _
+  | cons ev evs ih =>
+    intro s s' h
+    unfold nrunHistory at h
+    have hc := hcmd ev s
+    split at h
+    · rename_i u s1 he
+      exact (hcl (fun _ s => .oof)).trans (hc s1 (by rw [he]; rfl)) (ih s1 s' h)
+    · rename_i e s1 he
+      exact (hcl (fun _ s => .oof)).trans (hc s1 (by rw [he]; rfl)) (ih s1 s' h)
+    · cases h
 
 end TM
